@@ -1581,7 +1581,7 @@ def run(ctx: common.Ctx):
     ctx.rule = RULE
     ctx.assumptions += ASSUME
     ctx.require_coq(['properties/C14'], extra_targets=['CommentsRun'])
-    run_all(ctx, 'C14', 330, 4000)
+    run_all(ctx, 'C14', 330, 1500)
     probe_appended_entry(ctx)
 
 
@@ -1621,7 +1621,7 @@ def probe_appended_entry(ctx: common.Ctx):
 
 
 def search(ctx: common.Ctx):
-    run_all(ctx, 'C14', 330, 4000)
+    run_all(ctx, 'C14', 330, 1500)
 
 
 def replay(ctx, path):
